@@ -11,7 +11,7 @@ RULE = ("real ssnet.runonce on both tunnel ends over fake sockets, every micro-s
         "accepted; distinct by case seed")
 TRUSTED_BASE = sc.STREAM_TB
 ASSUMPTIONS = sc.STREAM_ASSUMPTIONS
-PROFILES = ["latency","latency","bulk","many"]
+PROFILES = ["latency","latency","bulk","many","noise"]
 
 
 def correspondence(ctx):
